@@ -43,14 +43,14 @@ MUST_REACH = ANCHORS
 FLOORS = {'quick': {'nontrivial': 2500, 'monitors': {'M.read': 5000, 'M.noop': 5000, 'M.edit': 4000, 'M.writeback': 4000, 'M.abort': 1200, 'K5': 4000},
                     'counters': {'op:append': 1000, 'op:comment+append': 300, 'op:remove': 800, 'op:replace': 800, 'op:ref-set': 800, 'op:ref-remove': 800, 'op:iter-remove': 120,
                                  'layout:first-line-blank': 200, 'layout:comment-inside': 800, 'layout:multi-line-item': 250,
-                                 'layout:comment-inside-item': 200, 'layout:comment-inside-last-item': 80, 'config:after/value_formatter': 250,
+                                 'layout:comment-inside-item': 200, 'layout:comment-inside-last-item': 80, 'layout:blank-other-than-one-space-inside-item': 900, 'config:after/value_formatter': 250,
                                  'config:before/value_formatter': 120, 'config:mid/value_formatter': 130, 'config:after/value_formatter_force': 130,
                                  'config:after/no_reformatting_when_finished': 130}},
           'thorough': {'nontrivial': 150000, 'monitors': {'M.read': 300000, 'M.noop': 300000, 'M.edit': 250000, 'M.writeback': 250000,
                                                           'M.abort': 80000, 'K5': 250000},
                        'counters': {'op:append': 60000, 'op:comment+append': 18000, 'op:remove': 50000, 'op:replace': 50000, 'op:ref-set': 50000,
                                     'op:ref-remove': 50000, 'op:iter-remove': 8000, 'layout:first-line-blank': 12000, 'layout:comment-inside': 50000, 'layout:multi-line-item': 30000,
-                                    'layout:comment-inside-item': 20000, 'layout:comment-inside-last-item': 8000, 'config:after/value_formatter': 25000,
+                                    'layout:comment-inside-item': 20000, 'layout:comment-inside-last-item': 8000, 'layout:blank-other-than-one-space-inside-item': 90000, 'config:after/value_formatter': 25000,
                                     'config:before/value_formatter': 12000, 'config:mid/value_formatter': 13000, 'config:after/value_formatter_force': 13000,
                                     'config:after/no_reformatting_when_finished': 13000}}}
 LEVEL_TEXT = ('Runtime monitoring: seeded list-field layouts and edit histories on the live list views; reads are compared with an '
@@ -75,14 +75,19 @@ def oracle(ftxt, comma):
 def gen_layout(r, comma, name='F'):
     n = r.randint(1, 6)
     vals = []
+    flags_pre = set()
     for i in range(n):
         if comma:
             v = r.choice(['foo%d', 'bar%d (>= 1.0)', 'baz%d | qux', 'a%d', 'lib-x%d [amd64 i386]', '${misc:Depends%d}', 'p%d:any',
-                          '#hash%d', 'x#y%d', 'N%d <n@x.org>'])
+                          '#hash%d', 'x#y%d', 'N%d <n@x.org>',
+                          # blanks other than one space INSIDE an item belong to the item
+                          'tab%d\t(>= 1.2)', 'two%d  spaces', 'mix%d \t | \talt'])
         else:
             v = r.choice(['foo%d', 'bar%d', 'amd64-%d', 'any%d', 'a%d', 'linux-any%d', '#hash%d', 'x#y%d', '!armel%d'])
         vals.append(v % i if r.random() < .8 else v.replace('%d', ''))
-    flags = set()
+        if '\t' in vals[-1] or '  ' in vals[-1]:
+            flags_pre.add('blank-other-than-one-space-inside-item')
+    flags = set(flags_pre)
     texts = {}
     if comma and r.random() < .2:
         # ONE item of a comma list may itself span several lines (long dependency with version, arch list, profiles)
